@@ -261,6 +261,10 @@ FAULTS = [
     ("catch-without-try", lambda L: (L[:10] + ["catch e { }"] + L[11:], 11)),
     ("try-without-catch", lambda L: (L[:10] + ["try { a = 2; }"] + L[11:], 11)),
     ("too-many-arguments", lambda L: (L[:10] + ["var c = add(%s);" % ", ".join("1" for _ in range(256))] + L[11:], 11)),
+    # two faults: a string whose escape swallows the line end, then a later error whose line must still be right (every message checked)
+    ("escape-x-swallows-newline", lambda L: (L[:10] + ["var s = \"\\x", "1\";", "var t = ;"] + L[11:], {"all": [(11, 12), 13]})),
+    ("escape-u-swallows-newline", lambda L: (L[:10] + ["var s = \"\\u00", "41\";", "var t = ;"] + L[11:], {"all": [(11, 12), 13]})),
+    ("escape-U-swallows-newline", lambda L: (L[:10] + ["var s = \"ab\\U0000", "0041\";", "print(s", "var t = ;"] + L[11:], {"all": [(11, 12), 14]})),
     ("static-with-self", lambda L: (L[:6] + ["    #[static]", "    fn m(self) {"] + L[7:], 8)),
 ]
 
@@ -386,6 +390,15 @@ def correspondence(ctx, model_ok=True):
         broken.append("the fault-free base program of the compile-error catalogue does not run: %s" % (progs.canon_step(cres[-1]),))
     for (name, src, line), r in zip(cat, cres):
         c = progs.canon_step(r)
+        if isinstance(line, dict):
+            want = [l if isinstance(l, tuple) else (l,) for l in line["all"]]
+            got = list(c[3]) if len(c) > 3 else []
+            okall = c[0] == "err" and c[1] == "CompileError" and len(got) >= len(want) and all(
+                any(g.startswith("[module \"main\", line %d]" % l) for l in ls) for g, ls in zip(got, want)) and not c[2]
+            if not okall:
+                failures.append({"what": "compile errors for fault '%s' do not name lines %s in turn" % (name, line["all"]), "program": src,
+                                 "expected_lines": [list(w) for w in want], "observed": c, "signature": "compile-error line: " + name, "failing_input": True})
+            continue
         lines_ok = line if isinstance(line, tuple) else (line,)
         if c[0] != "err" or c[1] != "CompileError" or not c[3] or not any(c[3][0].startswith("[module \"main\", line %d]" % l) for l in lines_ok) or c[2]:
             failures.append({"what": "compile error for fault '%s' does not name line %s first (or code ran)" % (name, line), "program": src,
